@@ -1,8 +1,8 @@
 #!/verif/.venv/bin/python
 # Replay of a solver counterexample against the unmodified code (no shims).
-# property=C04 kernel=roundtrip label=abstract:identical_timeline
+# property=C04 kernel=param label=abstract:param_roundtrip_completes
 import sys
 sys.path[:0] = ["/repo/pulser-core", "/repo/pulser-simulation", "/verif"]
 from symx.replay import replay
-sys.exit(replay(check='checks.c04', kernel='roundtrip', shape={'program': 'at_rest_a', 'codec': 'abstract'},
-                assignment={'a0': '1/1024', 'buf#1.start': 0, 'buf#1.end': 16, 'buf#2.start': 0, 'buf#2.end': 17, 'buf#5.start': 0, 'buf#5.end': 0, 'buf#6.start': 0, 'buf#6.end': 1, 'buf#7.start': 0, 'buf#7.end': 4, 'buf#8.start': 0, 'buf#8.end': 4}, label='abstract:identical_timeline'))
+sys.exit(replay(check='checks.c04', kernel='param', shape={'program': 'vars_list_operand', 'codec': 'abstract'},
+                assignment={}, label='abstract:param_roundtrip_completes'))
